@@ -137,6 +137,45 @@ def run(res, tier, seed, widen=1):
         if any(" @" not in s or s.rsplit(" @", 1)[1] != str(D.NAMES.index(own)) for s in r2.split(" ; ")):
             res.prop_failure(case, f"genuine {own} message after a same-form history was not decoded by its own decoder: {r2[-40:]}", "own_history")
         res.count("own_" + own)
+    # decode_message on P1 readout OBJECTS (genuine, and with line noise incl. non-ASCII octets) under every history
+    import p1_common as P
+    from han.dlde import DataReadout
+    mreqs, mmeta = [], []
+    for n in range((120 if tier == "quick" else 3000) * widen):
+        ro = bytearray(P.gen_readout(rng))
+        for _ in range(rng.choice([0, 0, 1, 1, 2])):
+            ro[rng.randrange(len(ro))] = rng.randrange(128, 256) if rng.random() < 0.5 else rng.randrange(128)
+        ro = bytes(ro)
+        for prev in ((None, 0, 1, 2, 3, 4, 5, 6) if n % 5 == 0 else (rng.choice([None, 0, 1, 2, 3, 4, 5, 6]),)):
+            mreqs.append(f"automsg {'N' if prev is None else prev} P {lib.hexs(ro)}")
+            mmeta.append((prev, ro))
+    for (prev, ro), a in zip(mmeta, lib.drive(mreqs)):
+        try:
+            msg = DataReadout(ro)
+        except Exception:  # noqa
+            continue
+        case = {"op": "automsg", "prev": prev, "kind": "P", "hex": ro.hex()}
+        res.evaluations += 1
+        try:
+            ad = D.new_autodecoder(prev)
+        except D.PrimerFailed as ex:
+            res.tie_break(case, str(ex), "the model decodes the genuine primer with its own decoder", "message_p1")
+            continue
+        try:
+            r = ad.decode_message(msg)
+            after = D.remembered(ad)
+        except Exception as ex:  # noqa
+            res.prop_failure(case, f"{D.exc_name(ex)} raised by decode_message / previous_success_decoder for a P1 readout message "
+                                   f"(remembered decoder {prev})", "message_p1")
+            continue
+        impl = ("None" if r is None else D.render_dict(r)) + " @" + ("N" if after is None else str(after))
+        if impl != a:
+            res.tie_break(case, impl[:300], a[:300], "message_p1")
+        # judged against the individual decoders: the P1 readout decoder is the only one that may accept a readout object's text
+        if r is None and after != prev:
+            res.prop_failure(case, f"result None but the remembered decoder changed from {prev} to {after}", "message_p1")
+        res.count("message_p1")
+        res.nontriv(("msgP", prev, ro))
     # decode_message == decode_message_payload(payload) for HDLC frames and DLMS messages
     from han.autodecoder import AutoDecoder
     from han.common import DlmsMessage
@@ -184,5 +223,16 @@ def replay(payload, res):
         print("impl :", impl[:600])
         print("model:", lib.drive([f"auto {'N' if c['prev'] is None else c['prev']} {lib.chunks_arg(ps)}"])[0][:600])
         check_history(res, c["prev"], ps, impl, "replay", c)
+    elif c["op"] == "automsg" and "prev" in c:
+        from han.common import DlmsMessage
+        from han.dlde import DataReadout
+        b = bytes.fromhex(c["hex"])
+        try:
+            ad = D.new_autodecoder(c["prev"])
+            r = ad.decode_message(DataReadout(b) if c.get("kind") == "P" else DlmsMessage(b))
+            print("result:", None if r is None else D.render_dict(r)[:300], "remembered:", D.remembered(ad))
+        except Exception as ex:  # noqa
+            print("raised:", D.exc_name(ex))
+            res.prop_failure(c, f"{D.exc_name(ex)} raised", "replay")
     print("REPLAY", "fails" if res.prop_failures else "passes")
     return 1 if res.prop_failures else 0
